@@ -18,7 +18,9 @@ RULE = ("generator dimensions are tabulated in harness/c06_dims.py (173 entries:
         "of Lanelet, LaneletNetwork, Rectangle, Circle, Polygon, ShapeGroup and every parameter of the driven operations; checked against the "
         "real signatures on every run, unknown name => exit 2). Beyond the description below: lanelets carry the non-geometric constructor "
         "arguments, reach their final geometry / id also through translate_rotate, convert_to_2d or the lanelet_id setter before insertion, "
-        "ids 0 / 2**40 / numpy.int64; routes list-nocleanup, Scenario.add_objects(list | network), replace_lanelet_network; operations "
+        "ids 0 / 2**40 / numpy.int64; vertex arrays of every lanelet handed over as float64 / float32 / int64 / int32 arrays chosen per array "
+        "(some boundary polylines are moved onto the integer grid first, shared vertices alike), so that integer-dtype and fractional float "
+        "boundaries meet in one lanelet; query points also 1/16 and 1/4 of the width inside each boundary; routes list-nocleanup, Scenario.add_objects(list | network), replace_lanelet_network; operations "
         "Scenario.add_objects / remove_lanelet (single and list form, possibly failing half-way and caught), LaneletNetwork.translate_rotate "
         "(exact), create_from_lanelet_network(exclude_lanelet_types, cleanup_ids), read-only probes between operations (deepcopy / pickle "
         "discarded, queries, cleanup_*, convert_to_2d, a rejected add); point lists as arrays / python lists / integer arrays / empty / single; "
@@ -73,7 +75,10 @@ REQUIRED_BUCKETS = ["net/route/list", "net/route/add", "net/route/empty", "net/r
                     "shape/variant/via-local", "shape/hist/after-query", "shape/hist/mode/iadd", "shape/hist/mode/inplace-reassign", "shape/hist/mode/ctor-alias",
                     "shape/hist/in-place-after-cached-read", "shape/hist/before-query", "shape/hist/Rectangle.center",
                     "shape/hist/Circle.radius", "shape/hist/Polygon.vertices", "obst/static", "obst/set", "obst/traj", "obst/group", "obst/hit", "obst/miss", "obst/empty-candidate-list",
-                    "meets/poly", "meets/rect", "meets/circ", "meets/touching", "meets/true", "meets/false"]
+                    "meets/poly", "meets/rect", "meets/circ", "meets/touching", "meets/true", "meets/false",
+                    "net/lanelet/dtype/int-right+fractional-left", "net/lanelet/dtype/int-left+fractional-right", "net/lanelet/dtype/all-int",
+                    "net/lanelet/dtype/float32", "net/lanelet/dtype/center-not-float64", "obst/lanelet/dtype/int-right+fractional-left",
+                    "obst/lanelet/dtype/int-left+fractional-right"]
 
 BAND = Fraction(1, 10 ** 9)
 TOL = Fraction(1, 10 ** 15)
@@ -207,6 +212,39 @@ def gen_lanelets(r, ids=None, nmax=7):
     return res
 
 
+def snap_to_integers(r, lanelets):
+    """Moves the vertices of some boundary polylines of the layout onto the integer grid (every occurrence of such a vertex
+    moves alike, so lanes keep sharing boundaries and successors keep sharing end edges).  The layout is kept only if every
+    lanelet polygon stays simple.  Integer coordinates are what lets a boundary be written as an integer-dtype array."""
+    for _ in range(4):
+        lines = sorted({tuple(map(tuple, l[k])) for l in lanelets for k in ("left", "right")})
+        pick = [ln for ln in lines if r.random() < 0.5] or [r.choice(lines)]
+        to = {v: (float(round(v[0])), float(round(v[1]))) for ln in pick for v in ln}
+        new = [dict(l, left=[list(to.get(tuple(p), p)) for p in l["left"]], right=[list(to.get(tuple(p), p)) for p in l["right"]])
+               for l in lanelets]
+        if all(_simple(l) for l in new):
+            return new
+    return lanelets
+
+
+def vary_dtypes(r, lanelets, p_snap=0.35):
+    """Value class of the vertex arrays: the numpy dtype each boundary / centre array has when it is handed to the constructor
+    (int64, int32, float32, float64 - the integer ones where the polyline lies on the integer grid, float32 where exact), chosen
+    per array, so that one lanelet mixes integer, single and double precision arrays."""
+    if r.random() < p_snap:
+        lanelets = snap_to_integers(r, lanelets)
+    for l in lanelets:
+        on_grid = {k: all(float(c).is_integer() for p in l[k] for c in p) for k in ("left", "right")}
+        if not (on_grid["left"] or on_grid["right"] or r.random() < 0.15):
+            continue
+        dt = {}
+        for k in ("left", "right"):
+            dt[k] = r.choice(["i8", "i8", "i8", "i4", "f8", "f4"]) if on_grid[k] else r.choice(["f8", "f8", "f8", "f4"])
+        dt["center"] = r.choice(["i8", "f8", "f8", "f4"])           # applied where exact
+        l["dtype"] = dt
+    return lanelets
+
+
 _ADDR = [0]
 
 
@@ -234,6 +272,10 @@ def net_points(r, lanelets, k=24):
         pts.append([ctr[0] + _g(r, 64), ctr[1] + _g(r, 64)])
         e0, e1 = l["left"][-1], l["right"][-1]
         pts.append([(e0[0] + e1[0]) / 2, (e0[1] + e1[1]) / 2])          # end edge (shared with a successor)
+        # on a cross-section, 1/16 or 1/4 of the width away from the left / the right boundary (the strip a shrunken polygon loses)
+        f = r.choice([1 / 16.0, 1 / 4.0, 15 / 16.0, 3 / 4.0])
+        j = r.randrange(len(l["left"]))
+        pts.append([l["left"][j][0] + f * (l["right"][j][0] - l["left"][j][0]), l["left"][j][1] + f * (l["right"][j][1] - l["left"][j][1])])
     pts.append([r.uniform(-500, 500), r.uniform(-500, 500)])
     pts.append([1.0e6, -1.0e6])
     r.shuffle(pts)
@@ -311,7 +353,7 @@ def _decorate(r, l, ids, file_route):
 def gen_net_case(r):
     route = r.choice(ROUTES)
     file_route = route in FILE_ROUTES
-    lanelets = _with_addr(gen_lanelets(r))
+    lanelets = _with_addr(vary_dtypes(r, gen_lanelets(r)))
     if not file_route and lanelets and r.random() < 0.15:
         lanelets[r.randrange(len(lanelets))]["id"] = r.choice([0, 2 ** 40])      # id value classes
     if r.random() < 0.3:
@@ -341,7 +383,7 @@ def gen_net_case(r):
             src = r.choice(current)
             dx = r.choice([0.0, 1.0, 0.5])
             l = dict(l, left=[[p[0] + dx, p[1] + dx] for p in src["left"]], right=[[p[0] + dx, p[1] + dx] for p in src["right"]])
-        return _decorate(r, l, [c["id"] for c in current], True)
+        return _decorate(r, vary_dtypes(r, [l])[0], [c["id"] for c in current], True)
 
     for _ in range(r.choice([0, 0, 1, 2, 3, 5]) + (2 if route == "empty" and r.random() < 0.7 else 0)):
         kind = r.choice(["add", "add", "add-known", "remove", "remove", "remove-unknown", "addFrom", "deepcopy", "pickle", "cut",
@@ -416,7 +458,7 @@ def gen_net_case(r):
         elif kind == "addFrom":
             m = r.randint(0, 2)
             nids = r.sample([i for i in range(1, 500) if i not in used], m)
-            ls = [_with_addr(gen_lanelets(r, ids=[i], nmax=1))[0] for i in nids]
+            ls = [_with_addr(vary_dtypes(r, gen_lanelets(r, ids=[i], nmax=1)))[0] for i in nids]
             used.update(nids)
             ops.append({"op": "addFrom", "ls": ls})
             current.extend(ls)
@@ -598,7 +640,7 @@ def build_shape_case(case):
 
 
 def gen_obst_case(r):
-    lanelets = _with_addr(gen_lanelets(r, nmax=4))
+    lanelets = _with_addr(vary_dtypes(r, gen_lanelets(r, nmax=4)))
     obs = []
     oid = 1000
     for _ in range(r.randint(1, 6)):
@@ -660,14 +702,23 @@ def wire_lanelet(l):
 
 # ================================================================================================ implementation side
 
-def build_lanelet(l):
-    """The Lanelet of a spec.  Optional spec fields: "extras" (the non-geometric constructor arguments), "pre" (how the
-    object reaches its final geometry / id before it is inserted anywhere: "move" = built elsewhere and moved by an
-    exact Lanelet.translate_rotate, "z" = built from 3-D vertices and converted with convert_to_2d, "reid" = built with
-    another id that the lanelet_id setter then replaces), "idtype" ("np": numpy.int64 id)."""
+_DTYPES = {"i8": "int64", "i4": "int32", "f4": "float32", "f8": "float64"}
+
+
+def _cast(arr, code):
+    """arr (float64) as an array of the numpy dtype `code`, if every coordinate survives the conversion unchanged
+    (integer dtypes: only arrays on the integer grid); otherwise arr itself.  The VALUES handed to the constructor are
+    therefore always the ones of the spec: only the dtype of the array object varies."""
     import numpy as np
-    from commonroad.common.common_lanelet import LaneletType, LineMarking, RoadUser, StopLine
-    from commonroad.scenario.lanelet import Lanelet
+    if code in (None, "f8"):
+        return arr
+    c = arr.astype(_DTYPES[code])
+    return c if np.array_equal(c.astype(np.float64), arr) else arr
+
+
+def _ctor_arrays(l):
+    """(left, center, right): the vertex arrays the constructor receives for a lanelet spec (pre-insertion path and dtypes applied)."""
+    import numpy as np
     left, right = np.array(l["left"], dtype=float), np.array(l["right"], dtype=float)
     pre = l.get("pre") or {}
     if "move" in pre:
@@ -676,6 +727,48 @@ def build_lanelet(l):
     if pre.get("z"):
         z = np.linspace(1.0, 3.0, len(left)).reshape(-1, 1)
         left, right = np.hstack([left, z]), np.hstack([right, z + 0.5])
+    center = (left + right) / 2.0
+    dt = l.get("dtype") or {}
+    return _cast(left, dt.get("left")), _cast(center, dt.get("center")), _cast(right, dt.get("right"))
+
+
+def dtype_classes(l):
+    """Which dtype classes the vertex arrays of the lanelet spec really have when it is built (after _cast's exactness
+    rule).  Lanelets that reach their place through translate_rotate / convert_to_2d get new float arrays there: no class."""
+    import numpy as np
+    pre = l.get("pre") or {}
+    if not l.get("dtype") or "move" in pre or pre.get("z"):
+        return set()
+    arrs = dict(zip(("left", "center", "right"), _ctor_arrays(l)))
+    kinds = {k: a.dtype.kind + str(a.dtype.itemsize) for k, a in arrs.items()}
+    fractional = {k: not np.array_equal(np.trunc(arrs[k]), arrs[k]) for k in ("left", "right")}
+    out = set()
+    if kinds["right"][0] == "i" and kinds["left"][0] == "f" and fractional["left"]:
+        out.add("int-right+fractional-left")
+    if kinds["left"][0] == "i" and kinds["right"][0] == "f" and fractional["right"]:
+        out.add("int-left+fractional-right")
+    if kinds["left"][0] == "i" and kinds["right"][0] == "i":
+        out.add("all-int")
+        if kinds["left"] != kinds["right"]:
+            out.add("int32+int64")
+    if "f4" in (kinds["left"], kinds["right"]):
+        out.add("float32")
+    if kinds["center"] != "f8":
+        out.add("center-not-float64")
+    return out
+
+
+def build_lanelet(l):
+    """The Lanelet of a spec.  Optional spec fields: "extras" (the non-geometric constructor arguments), "pre" (how the
+    object reaches its final geometry / id before it is inserted anywhere: "move" = built elsewhere and moved by an
+    exact Lanelet.translate_rotate, "z" = built from 3-D vertices and converted with convert_to_2d, "reid" = built with
+    another id that the lanelet_id setter then replaces), "idtype" ("np": numpy.int64 id), "dtype" ({"left" / "center" /
+    "right": "i8" | "i4" | "f4" | "f8"}: numpy dtype of the vertex array handed to the constructor, applied where exact)."""
+    import numpy as np
+    from commonroad.common.common_lanelet import LaneletType, LineMarking, RoadUser, StopLine
+    from commonroad.scenario.lanelet import Lanelet
+    left, center, right = _ctor_arrays(l)
+    pre = l.get("pre") or {}
     ex = l.get("extras") or {}
     kw = {}
     for k in ("predecessor", "successor"):
@@ -688,7 +781,7 @@ def build_lanelet(l):
         if k in ex:
             kw[k] = LineMarking[ex[k]]
     if ex.get("stop_line"):
-        kw["stop_line"] = StopLine(np.array(left[-1][:2]), np.array(right[-1][:2]), LineMarking[ex["stop_line"]])
+        kw["stop_line"] = StopLine(np.array(left[-1][:2], dtype=float), np.array(right[-1][:2], dtype=float), LineMarking[ex["stop_line"]])
     if "lanelet_type" in ex:
         kw["lanelet_type"] = {LaneletType[x] for x in ex["lanelet_type"]}
     for k in ("user_one_way", "user_bidirectional"):
@@ -698,7 +791,7 @@ def build_lanelet(l):
     if l.get("idtype") == "np":
         lid = np.int64(lid)
     first_id = pre["reid"] if "reid" in pre else lid
-    la = Lanelet(left, (left + right) / 2.0, right, first_id, **kw)
+    la = Lanelet(left, center, right, first_id, **kw)
     if "reid" in pre:
         la.lanelet_id = lid
     if pre.get("z"):
@@ -964,7 +1057,9 @@ def run_net(ctx, case, model=True):
             ctx.tag("net/op/sc_remove-no-referenced")
         if k in ("sc_remove", "sc_add") and not op.get("as_list", True):
             ctx.tag("net/op/single-object-form")
-    for l in lanelets + [o["l"] for o in ops if o["op"] == "add"] + [x for o in ops if o["op"] == "sc_add" for x in o["ls"]]:
+    for l in (lanelets + [o["l"] for o in ops if o["op"] == "add"] + [x for o in ops if o["op"] in ("sc_add", "addFrom") for x in o["ls"]]):
+        for c in (dtype_classes(l) if not (route in FILE_ROUTES and any(l is x for x in lanelets)) else ()):
+            ctx.tag("net/lanelet/dtype/" + c)           # (what comes out of a file is float64 whatever was written)
         if l.get("extras"):
             ctx.tag("net/lanelet/extras")
         for kk in (l.get("pre") or {}):
@@ -1385,6 +1480,9 @@ def run_obst(ctx, case, model=True):
     from commonroad.scenario.lanelet import LaneletNetwork
     lanelets, obs, t = case["lanelets"], case["obs"], case["t"]
     ctx.case(case)
+    for l in lanelets:
+        for c in dtype_classes(l):
+            ctx.tag("obst/lanelet/dtype/" + c)
     r = call(lambda: [build_obstacle(o, t) for o in obs])
     if r[0] == "err":
         _fail(ctx, f"C06/obstacle/construct/raises-{r[1]}", f"constructing the obstacles raises {r[2]}", case)
